@@ -91,7 +91,12 @@ CLAIMS.update({
         note=COMMON_NOTE),
     'C19': dict(
         text=('Theorems C19_index_unique (one reference per response id in every index written), C19_keys_written (a round trip writes only the '
-              'request\'s URI key and variant keys derived from it, on every path), C19_invalidation. Monitor mon_C19 bounds live keys and index '
+              'request\'s URI key and variant keys derived from it, on every path), C19_invalidation; over whole histories C19_history / C19_history_every_point '
+              '(store invariant InvF of Proofs/FootProofs.v, tree predicate SafeF proved of round_trip q for every q and preserved by run, run_pending, exchange, run_history: '
+              'for every history from the empty store, every origin script and configuration, if reqs covers the requests sent to the origin up to URL key and header block and '
+              'varies the Vary values of the origin\'s replies, then after the history and after every prefix of it every key of the store is in candidate_keys reqs varies, the '
+              'number of distinct keys and the length of every index are at most its length <= |reqs| * (1 + |varies|), and no index lists a response id twice or holds a null element; '
+              'C19_history_nonvacuous: six alternating requests, three keys, an index of two). Monitor mon_C19 bounds live keys and index '
               'length independently of history length on long repetitive histories (profile repeat) on the real store.'),
         note=COMMON_NOTE + ' Orphaned entries whose reference was replaced by a reply with a different Vary are bounded by the distinct variants but not collected; the monitor bound allows them.'),
 })
